@@ -390,6 +390,15 @@ class Net:
 
     def deliver(self, ev, cut=None):
         seq, kind, obj = ev
+        # a batched second delivery may have been invalidated by the first one (reset, close)
+        if kind == "accept":
+            if obj.closed or not obj.backlog or obj.backlog[0][0] != seq:
+                return
+        elif kind == "exec":
+            if obj not in self.jobs:
+                return
+        elif obj.closed or obj.closing or not obj.inbox or obj.inbox[0][0] != seq:
+            return
         self.n_events += 1
         if kind == "accept":
             self._deliver_accept(obj)
